@@ -473,15 +473,15 @@ func c18Hostile(c *core.Case) {
 	tail := make([]byte, c.Rng.IntN(40))
 	var inputs []hostile
 	inputs = append(inputs,
-		hostile{"frame", cat(be32(1), be64(0), be32(big), tail)},          // LTX frame, name length huge
-		hostile{"frame", cat(be32(4), be32(big), tail)},                   // DropDB
-		hostile{"frame", cat(be32(5), be32(big), tail)},                   // Handoff
-		hostile{"frame", cat(be32(6), be64(7), be32(big), tail)},          // HWM
-		hostile{"frame", cat(be32(c.Rng.Uint32()|8), tail)},               // unknown type
-		hostile{"posmap", cat(be32(big), tail)},                           // entry count huge
-		hostile{"posmap", cat(be32(1), be32(big), tail)},                  // name length huge
+		hostile{"frame", cat(be32(1), be64(0), be32(big), tail)}, // LTX frame, name length huge
+		hostile{"frame", cat(be32(4), be32(big), tail)},          // DropDB
+		hostile{"frame", cat(be32(5), be32(big), tail)},          // Handoff
+		hostile{"frame", cat(be32(6), be64(7), be32(big), tail)}, // HWM
+		hostile{"frame", cat(be32(c.Rng.Uint32()|8), tail)},      // unknown type
+		hostile{"posmap", cat(be32(big), tail)},                  // entry count huge
+		hostile{"posmap", cat(be32(1), be32(big), tail)},         // name length huge
 		hostile{"posmap", cat(be32(3), be32(1), []byte("a"), be64(1), be64(2), be32(big))},
-		hostile{"chunk", cat([]byte{0xFF, 0xFF}, tail)},                   // chunk claims 65535 bytes
+		hostile{"chunk", cat([]byte{0xFF, 0xFF}, tail)}, // chunk claims 65535 bytes
 	)
 	rb := make([]byte, 1+c.Rng.IntN(64))
 	for i := range rb {
